@@ -658,5 +658,53 @@ Fixpoint accept_from (c : cfg) (ths : list N) (s : state) (steps : list (list ev
       end
   end.
 
-Definition accept (nthreads : N) (steps : list (list event)) : bool :=
+Definition accept_fast (nthreads : N) (steps : list (list event)) : bool :=
   accept_from fixed (seqN 0 (N.to_nat nthreads)) init steps.
+
+(* [accept_from] commits to the first interleaving that explains a macro step.  That is incomplete when a hidden
+   choice (which entry Close / GC visits first while it blocks) only shows later, so a full backtracking search
+   over the whole trace, bounded by a node budget, is used as a fallback. *)
+Fixpoint try_all (f : state -> N -> bool * N) (l : list state) (b : N) : bool * N :=
+  match l with
+  | [] => (false, b)
+  | x :: r => let '(ok, b1) := f x b in if ok then (true, b1) else try_all f r b1
+  end.
+
+Fixpoint search (fuel : nat) (c : cfg) (ths : list N) (s : state) (evs : list event)
+                (rest : list (list event)) (b : N) : bool * N :=
+  match fuel with
+  | O => (false, b)
+  | S f =>
+      if b =? 0 then (false, 0) else
+      let b' := b - 1 in
+      let '(taus, vis) := split_moves c s (own_labels s ths) in
+      match evs with
+      | [] =>
+          match taus with
+          | [] =>
+              if vis then (false, b')
+              else match rest with
+                   | [] => (negb (panicked s), b')
+                   | evs' :: rest' => search f c ths s evs' rest' b'
+                   end
+          | _ => try_all (fun s1 b1 => search f c ths s1 [] rest b1) taus b'
+          end
+      | e :: r =>
+          let '(ok, b1) := match vis_step c s e with
+                           | Some s1 => search f c ths s1 r rest b'
+                           | None => (false, b')
+                           end in
+          if ok then (true, b1) else try_all (fun s1 b2 => search f c ths s1 evs rest b2) taus b1
+      end
+  end.
+
+Definition accept_full (nthreads : N) (steps : list (list event)) : bool :=
+  match steps with
+  | [] => true
+  | evs :: rest =>
+      fst (search (4 * length (concat steps) + 40 * length steps + 40) fixed (seqN 0 (N.to_nat nthreads)) init
+                  evs rest 200000)
+  end.
+
+Definition accept (nthreads : N) (steps : list (list event)) : bool :=
+  accept_fast nthreads steps || accept_full nthreads steps.
